@@ -132,7 +132,11 @@ tl19::Case decode(FuzzedDataProvider &p) {
     const double off = T0 *
                        std::ldexp(1. + frac(p), p.ConsumeIntegralInRange<int>(-10, 20)) *
                        (p.ConsumeBool() ? 1. : -1.);
-    if ((off + T0) - off > 0.) {
+    if (p.ConsumeBool()) { // start and end independent: end - start rounds
+      const double s2 = p.ConsumeBool() ? -off : T0 * 0.999 * frac(p);
+      if (s2 < T0 && T0 - s2 > 0. && s2 != 0.)
+        c.start = s2;
+    } else if ((off + T0) - off > 0.) {
       c.start = off;
       c.end = off + T0;
     }
